@@ -7,7 +7,9 @@
 (* sequence of elements [k, id, key]: k the scalar kind ("int","float",    *)
 (* "bool","null","str"), id its canonical text ("3", "2.5", "1.0", "true", *)
 (* "null", or the string itself), key the dict key ("" otherwise).  A      *)
-(* scalar is a one-element sequence.  A type is [c, st, opt]: container,   *)
+(* scalar is a one-element sequence; c = "dictlist" is a dict whose values  *)
+(* are lists (the elements of one list share their key).  A type is         *)
+(* [c, st, opt]: container,                                                 *)
 (* scalar type of the (element) value, Optional or not.                    *)
 (*                                                                         *)
 (* Ref:  Outcome(shape, settings) -- does not mention the channel: the     *)
@@ -31,7 +33,8 @@ Scalar(k, id)  == [c |-> "scalar", e |-> <<El(k, id, "")>>]
 Null           == Scalar("null", "null")
 Ty(c, st, opt) == [c |-> c, st |-> st, opt |-> opt]
 
-TextChannels == {"argv_eq", "argv_sp", "env"}
+\* "argv_items": a dict-typed key is given item by item (--d.k1=1, --dl.k1=[1, 2]); other values as --k=v
+TextChannels == {"argv_eq", "argv_sp", "env", "argv_items"}
 DocChannels  == {"cfg_file", "cfg_str", "parse_string", "parse_path", "object_nested", "object_dotted"}
 AllChannels  == TextChannels \cup DocChannels
 
@@ -51,7 +54,7 @@ ElemNorm(st, el) == IF st = "float" /\ el.k = "int" THEN El("float", FloatIdOfIn
 IsNull(v) == v.c = "scalar" /\ v.e[1].k = "null"
 Accepts(t, v) ==
   IF IsNull(v) THEN t.opt
-  ELSE /\ v.c = t.c
+  ELSE /\ (v.c = t.c \/ (v.c = "dict" /\ v.e = << >> /\ t.c = "dictlist"))          \* {} is the empty dict of any value type
        /\ \A j \in 1..Len(v.e) : ElemOk(t.st, v.e[j])
 Norm(t, v) == IF IsNull(v) THEN v ELSE [c |-> v.c, e |-> [j \in 1..Len(v.e) |-> ElemNorm(t.st, v.e[j])]]
 
